@@ -17,6 +17,6 @@ for d in /verif/seeded/*/; do
   echo "  $name:$res"
 done
 if [ "$1" != "nobenign" ]; then
-echo "== benign"; /verif/tools/benign_par.sh /verif/benign/*/benign-*.diff 2>&1 | grep "^==" | sed 's#/verif/benign/##'
+echo "== benign"; /verif/tools/benign_par.sh /verif/benign/*/benign-*.diff 2>&1 | grep "^==\|DOES NOT APPLY" | sed 's#/verif/benign/##'
 fi
 rm -rf $R
